@@ -5,6 +5,7 @@ package lib
 import (
 	"errors"
 	"fmt"
+	"strings"
 
 	jlib "github.com/jsightapi/jsight-schema-go-library"
 	liberrors "github.com/jsightapi/jsight-schema-go-library/errors"
@@ -23,6 +24,17 @@ type Res struct {
 	Msg    string `json:"msg,omitempty"`
 	Panic  string `json:"panic,omitempty"`
 	Type   string `json:"type,omitempty"`
+	File   string `json:"file,omitempty"`   // Filename() of the error, when exposed
+	Render string `json:"render,omitempty"` // Error() text (or the panic it raises)
+}
+
+// Full is Verdict plus the file the error names and whether rendering it panics.
+func (r Res) Full() string {
+	if r.Panic != "" || r.OK {
+		return r.Verdict()
+	}
+	// the message text itself is not part of it: it may list keys in map order
+	return fmt.Sprintf("%s[%s]panics=%v", r.Verdict(), r.File, strings.HasPrefix(r.Render, "<Error() panicked"))
 }
 
 func (r Res) String() string {
@@ -52,6 +64,7 @@ func (r Res) Verdict() string {
 type coder interface{ ErrCode() int }
 type positioner interface{ Position() uint }
 type messager interface{ Message() string }
+type filenamer interface{ Filename() string }
 
 // FromErr classifies an error value.
 func FromErr(err error) Res {
@@ -80,6 +93,11 @@ func FromErr(err error) Res {
 	} else {
 		r.Msg = safeErrorText(err)
 	}
+	var fn filenamer
+	if errors.As(err, &fn) {
+		r.File = fn.Filename()
+	}
+	r.Render = safeErrorText(err)
 	return r
 }
 
